@@ -299,7 +299,15 @@ PROPS = {
             "C06_stores_only_grow", "C06_capture_by_reference", "C06_write_seen_through_shared_cell",
             "C06_iteration_cells_distinct_repeat", "C06_iteration_cells_distinct_foreach",
             "C06_return_keeps_store", "C06_repeat_scope_exit", "C06_foreach_scope_exit",
-            "C06_reachable_states_well_formed", "C06_cell_outlives_scope", "C06_closure_body_identity"]},
+            "C06_reachable_states_well_formed", "C06_cell_outlives_scope", "C06_closure_body_identity",
+            # the VM half (Vm.v): the open-upvalue list and what capture means on single instructions
+            "C06_vm_ok_meaning", "C06_fresh_state_vm_ok", "C06_open_upvalues_preserved",
+            "C06_open_upvalues_preserved_next", "C06_open_upvalues_preserved_run", "C06_open_slot_may_be_dead",
+            "C06_vm_register_shares", "C06_vm_quiet_instructions", "C06_vm_quiet_instructions_same_objects",
+            "C06_vm_second_capture_shares", "C06_vm_heap_mono_meaning", "C06_vm_objects_stable",
+            "C06_vm_objects_stable_run", "C06_vm_closures_closed",
+            "C06_vm_read_write_open", "C06_vm_close_keeps_value",
+            "C06_vm_return_closes", "C06_vm_closed_upvalue_is_private", "C06_vm_closure_body"]},
         n_quick=200, n_thorough=3000,
         gen_timeout=3000,
         release=False,
@@ -358,8 +366,10 @@ PROPS = {
              "case term",
         trusted_base=COMMON_TB + [
             "the reference semantics RefSem.v is the specification of oracle A: a hand-written big-step evaluator over "
-            "names and cells (no stack, no indices, no bytecode); the theorems of Properties/C06.v are about it; there "
-            "is no model of the compiler or VM in this check yet (the models follow the old upvalue encoding)",
+            "names and cells (no stack, no indices, no bytecode); the first eleven theorems of Properties/C06.v are "
+            "about it. The C06_vm_* / C06_open_* theorems are about the VM model Vm.v (hand transcription of /repo HEAD, "
+            "tied to the code by the VM / C03 / C17 / C18 correspondence checks, not by this check); the compiled "
+            "witnesses of VmUpvalueWitness.v are printed by the harness (vm-witness) from findings/C06/S-*.json",
             "oracle B trusts the generator's bookkeeping of which closure expression reaches which call site; the "
             "checker first requires the reference semantics itself to meet it (else code 3: generator defect)",
             "StdlibGen.std_module: the card text of the std module as printed by the harness (generated file)",
@@ -370,8 +380,15 @@ PROPS = {
             "the claim is for well_scoped programs (see C01)",
             "globals are compared by name with nil entries dropped on both sides; error KINDS are compared, not payloads",
             "runs that end in Timeout / Stackoverflow / CallStackOverflow / OutOfMemory are skipped and counted",
-            "the theorems are about the reference semantics; the refinement theorem that ties Vm.v's open-upvalue list "
-            "to RefSem's cells is stated in a comment of Properties/C06.v and not proved",
+            "the refinement theorem that ties Vm.v's upvalue objects to RefSem's cells through the compiler "
+            "(cell_rel / closure_refinement) is stated in a comment of Properties/C06.v and not proved; proved on the VM "
+            "side: the open-upvalue list invariant vm_ok is kept by every instruction (all opcodes, all natives, "
+            "re-entry) and by `run`, and the single-instruction capture semantics (register / read / write / close / "
+            "return / call)",
+            "vm_ok bounds an open upvalue's slot by the CAPACITY of the stack array, not by the stack height: the VM "
+            "does not keep `slot < height` for arbitrary bytecode (C06_open_slot_may_be_dead); for compiled programs "
+            "that bound would follow from the compiler emitting CloseUpvalue before a scope's pops, which is not proved",
+            "vm_ok says nothing about the state of a model abort (panic / UB / crash / divergence outcomes of Vm.v)",
             "the iteration theorems speak about the unrolling relations repeat_iter / foreach_iter, which follow the "
             "clauses of RefSem.F (tied to F by C06_repeat_scope_exit / C06_foreach_scope_exit)",
         ],
